@@ -173,6 +173,22 @@ Fixpoint exec (e : env) (a : action) (s : st) {struct a} : st :=
 
 Definition exec_list (e : env) (l : list action) (s : st) : st := fold_left (fun x b => exec e b x) l s.
 
+(* The outbound set as the property words it: the (value, fee) of the sends recorded by operations
+   that succeeded and do not sit inside a frame that failed and was rolled back - read off the tree
+   alone, without running anything.  (A creation that fails with ErrCodeStoreOutOfGas, out = 2, is
+   not rolled back by the code: its sends stay, with their debits.)  Whether a listed send really
+   debits and emits still depends on the balance guard, so the ETX cache grows by a SUBSEQUENCE of
+   this list (Proofs/C02_Out.v). *)
+Fixpoint live_sends (a : action) : list (Z * Z) :=
+  match a with
+  | ACall _ _ _ _ _ body reverted => if reverted then [] else flat_map live_sends body
+  | ACallEtx _ v _ reverted => if reverted then [] else [(v, 0)]
+  | AFrame _ _ _ _ body reverted => if reverted then [] else flat_map live_sends body
+  | ACreate _ _ _ _ body out => if (out =? 1)%N then [] else flat_map live_sends body
+  | AEtx _ value fee pre_ok emitted => if pre_ok && emitted then [(value, fee)] else []
+  | _ => []
+  end.
+
 (* ---------- the message and TransitionDb ---------- *)
 Inductive kind :=
 | KNormal
